@@ -433,7 +433,7 @@ func lengths(tier string) []int {
 }
 
 func Run(r *evid.Run) {
-	r.Rule("size sweep: for every length L in the tier's set, 6 value shapes (struct with 7 kinds of empty omitempty member - empty string, nil pointer, empty map, empty slice, user MarshalJSONTo writing '[' ']' resp. '{' '}' as separate tokens, any holding an empty container - at first/middle/last position; slices, maps, nested) whose leading string has L bytes x 3 whitespace option sets x 2 pool histories x {MarshalWrite to bytes.Buffer / pre-grown bytes.Buffer / plain writer, MarshalEncode on streaming Encoders (plain, bytes.Buffer, inside an array), token-level replay}: delivered bytes == Marshal (+ newline for an Encoder). Write faults: every Write call index x 4 short-write lengths on token-level Encoders (all tokens accepted, OutputOffset as in the fault-free run, delivered bytes a prefix and complete after later writes) and on MarshalWrite (error returned, prefix delivered, following MarshalWrite calls unaffected). evaluations = executions; distinct_nontrivial = distinct (L, shape, options, history) sweep points plus distinct fault schedules that hit a Write call")
+	r.Rule("size sweep: for every length L in the tier's set, 6 value shapes (struct with 7 kinds of empty omitempty member - empty string, nil pointer, empty map, empty slice, user MarshalJSONTo writing '[' ']' resp. '{' '}' as separate tokens, any holding an empty container - at first/middle/last position; slices, maps, nested) whose leading string has L bytes x 3 whitespace option sets x 2 pool histories x {MarshalWrite to bytes.Buffer / pre-grown bytes.Buffer / plain writer, MarshalEncode on streaming Encoders (plain, bytes.Buffer, inside an array), token-level replay}: delivered bytes == Marshal (+ newline for an Encoder). Write faults: every Write call index x 5 short-write lengths (including a call that accepts everything and still returns an error) on token-level Encoders (all tokens accepted, OutputOffset as in the fault-free run, delivered bytes a prefix and complete after later writes) and on MarshalWrite (error returned, prefix delivered, following MarshalWrite calls unaffected). evaluations = executions; distinct_nontrivial = distinct (L, shape, options, history) sweep points plus distinct fault schedules that hit a Write call")
 	r.Assume("Marshal's own output as the reference bytes (checked to be valid JSON by the reference recognizer)")
 	ls := lengths(r.Tier)
 	type unit struct{ L, os, warm int }
@@ -490,7 +490,7 @@ func Run(r *evid.Run) {
 			doc, _ := jsonv2.Marshal(values(fu.L)[fu.vi], jsonv2.Deterministic(true))
 			doc = append(doc, " null 12"...)
 			for failAt := 1; failAt <= 14; failAt++ {
-				for _, keep := range []int{0, 1, -2, -1} {
+				for _, keep := range []int{0, 1, -2, -1, 1 << 30} {
 					cur = Case{Part: "fault", L: fu.L, Value: fu.vi, FailAt: failAt, Keep: keep}
 					n++
 					nt++
@@ -513,6 +513,6 @@ func Run(r *evid.Run) {
 		}
 	})
 	r.Sample(Case{Part: "fault", L: 700, Value: 3, FailAt: 2, Keep: -2})
-	r.Bound("write faults: %d lengths x 6 shapes x failing Write call index 1..14 x short-write lengths {0,1,len/2,len-1} on token-level Encoders and on MarshalWrite (failing once / from then on)", len(fl))
+	r.Bound("write faults: %d lengths x 6 shapes x failing Write call index 1..14 x short-write lengths {0,1,len/2,len-1,len (everything accepted yet an error returned)} on token-level Encoders and on MarshalWrite (failing once / from then on)", len(fl))
 	_ = io.EOF
 }
